@@ -66,6 +66,22 @@ def main():
                 if x != y or x != z:
                     print(f"   first divergence at run index {i}")
                     break
+    # the same sweep at 1 and at 16 workers gives the same digest for every run index
+    import tempfile
+
+    for prop in [p for p in props if p in ("C12", "C02", "C09")] or props[:1]:
+        outs = []
+        for workers in (1, 16):
+            fn = tempfile.mktemp(prefix="gwfdig-", dir="/dev/shm")
+            n_runs = 30 if prop in ("C09", "C17") else 600
+            cp = subprocess.run([os.path.join(ROOT, "check"), prop, "--runs", str(n_runs), "--workers", str(workers),
+                                 "--no-evidence", "--no-minimise", "--dump-digests", fn], cwd=ROOT, capture_output=True, text=True)
+            outs.append(json.load(open(fn)) if os.path.exists(fn) else None)
+            if os.path.exists(fn):
+                os.remove(fn)
+        same = outs[0] is not None and outs[0] == outs[1]
+        print(f"{prop}: {len(outs[0] or {})} runs at 1 worker and at 16 workers: {'identical digests' if same else 'DIFFERENT'}")
+        bad += not same
     return 2 if bad else 0
 
 
